@@ -69,6 +69,7 @@ def size_job(job):
             except BaseException as e:  # noqa
                 continue
             out.append({'id': '%s|%s|%s' % (job['id'], o, bname), 'what': 'size', 'option': o, 'len_on': len(on.encode('utf-8')), 'len_off': len(off.encode('utf-8')),
+                        'slack': indent_slack(on) if len(on) > len(off) and o in ('rename_locals', 'rename_globals', 'hoist_literals') else 0,
                         'kind': '', 'L': 0, 'C': 0, 'refs': 0, 'old_mentions': 0, 'new_mentions': 0, 'additional': 0, 'decided': False})
     # decisions logged during the last default-options run
     del _log[:]
@@ -79,9 +80,61 @@ def size_job(job):
     dec = []
     for k, d in enumerate(_log[:400]):
         r = dict(d)
-        r.update({'id': '%s|decision%d' % (job['id'], k), 'what': 'decision', 'option': '', 'len_on': 0, 'len_off': 0})
+        r.update({'id': '%s|decision%d' % (job['id'], k), 'what': 'decision', 'option': '', 'len_on': 0, 'len_off': 0, 'slack': 0})
         dec.append(r)
     return out + dec
+
+
+def indent_slack(out_src):
+    """characters by which the cost model under-estimates the inserted assignments of this output: an assignment inserted at the head of
+    a function body that is printed as an indented block is followed by a newline and the block's indentation, not by one character"""
+    import ast
+    try:
+        t = ast.parse(out_src)
+    except SyntaxError:
+        return 0
+    slack = 0
+
+    def visit(node, depth):
+        nonlocal slack
+        for ch in ast.iter_child_nodes(node):
+            if isinstance(ch, (ast.FunctionDef, ast.AsyncFunctionDef)):
+                compound = any(isinstance(st, (ast.If, ast.For, ast.While, ast.Try, ast.With, ast.FunctionDef, ast.ClassDef, ast.AsyncFunctionDef, ast.AsyncFor,
+                                               ast.AsyncWith, ast.Match)) for st in ch.body)
+                if compound:
+                    for st in ch.body:
+                        if isinstance(st, ast.Expr) and isinstance(st.value, ast.Constant) and isinstance(st.value.value, str):
+                            continue
+                        if isinstance(st, ast.Assign) and len(st.targets) == 1 and isinstance(st.targets[0], ast.Name) and isinstance(st.value, (ast.Name, ast.Constant)):
+                            slack += depth + 1
+                            continue
+                        break
+                visit(ch, depth + 1)
+            elif isinstance(ch, (ast.ClassDef, ast.If, ast.For, ast.While, ast.Try, ast.With)):
+                visit(ch, depth + 1)
+            else:
+                visit(ch, depth)
+    visit(t, 0)
+    return slack
+
+
+def synthetic():
+    """small modules in which one literal is repeated k times - at module level, in a function, in a nested block - for every literal kind
+    the hoister could consider; they make the size options' cost decisions observable one at a time"""
+    out = []
+    lits = ['1.0', '0.0', '1', '0', 'True', 'False', 'None', "'ab'", "'abcdef'", "b'ab'", '1.5', '2e10', '0j', "''", '...', "'a much longer literal value'"]
+    for lit in lits:
+        for k in (2, 3, 5, 8, 12, 20):
+            uses = ', '.join([lit] * k)
+            out.append(('synthetic:module:%s:%d' % (lit, k), ('values = [%s]\nprint(values)\n' % uses).encode()))
+            out.append(('synthetic:function:%s:%d' % (lit, k), ('def function_name(argument):\n    values = [%s]\n    return values, argument\nprint(function_name(1))\n' % uses).encode()))
+            out.append(('synthetic:nested:%s:%d' % (lit, k), ('def function_name(argument):\n    if argument:\n        for item in argument:\n            values = [%s]\n    return argument\n' % uses).encode()))
+    for name in ('argument_name', 'a', 'ab'):
+        for k in (1, 2, 4, 8):
+            body = ' + '.join([name] * k)
+            out.append(('synthetic:param:%s:%d' % (name, k), ('def function_name(%s, other=1):\n    if other:\n        return %s\n    return other\n' % (name, body)).encode()))
+            out.append(('synthetic:import:%s:%d' % (name, k), ('import collections\ndef function_name():\n    import os.path, json\n    return %s\n' % ' + '.join(['json.dumps(1)'] * k)).encode()))
+    return out
 
 
 def run(args, rep):
@@ -93,6 +146,7 @@ def run(args, rep):
             raise MachineryError('Cost.tla: the cost model as transcribed is not sound where it should be exact (%s)' % r.violated)
     files, skipped = corpus.stdlib('3.12', 100 if args.tier == 'quick' else 300)
     srcs = [('file:' + p, b) for p, b in files] + [('repo:' + p, b) for p, b in corpus.repo_sources()]
+    srcs += synthetic()
     jobs = [{'id': name, 'src': b} for name, b in srcs]
     res = local.pmap(size_job, jobs, chunksize=2)
     records = [r for rs in res for r in rs]
@@ -111,6 +165,8 @@ def run(args, rep):
         name = rid.split('|')[0]
         if r['what'] == 'size':
             key = 'size|%s|%s|%s|%s' % (name.split('/')[-1], shas[name], r['option'], rid.split('|')[2])
+            if 0 < r['len_on'] - r['len_off'] <= r.get('slack', 0):
+                key = 'D15:' + key       # the growth is within what the indentation of inserted assignments accounts for (known finding)
             what = '%s option=%s base=%s len_on=%d len_off=%d' % (name, r['option'], rid.split('|')[2], r['len_on'], r['len_off'])
         else:
             key = 'decision|%s' % ','.join('%s=%s' % (k, r[k]) for k in ('kind', 'L', 'C', 'refs', 'old_mentions', 'new_mentions', 'additional', 'decided'))
